@@ -28,6 +28,11 @@ def opaque(it, name, args, kwargs, space=None):
                space=space)
 
 
+def _kwcopy(k):
+    """a plain copy of the keyword arguments for the event record (copying must not count as the model having looked at the options)"""
+    return {kk: dict.__getitem__(k, kk) for kk in dict.keys(k)} if isinstance(k, dict) else dict(k)
+
+
 def argn(args, kwargs, i, name, default=None):
     if i < len(args):
         return args[i]
@@ -860,7 +865,7 @@ def isinstance_(it, v, cls, node):
         tn = type(pv).__name__
         if isinstance(v, Seq):
             tn = v.kind
-        return K(any_(lambda n: n == "builtins." + tn or (tn == "int" and n == "builtins.float" and False)))
+        return K(any_(lambda n: n == "builtins." + tn or (tn == "bool" and n == "builtins.int")))  # bool is a subclass of int
     if isinstance(v, Seq):
         return K(any_(lambda n: n == "builtins." + v.kind))
     if isinstance(v, DictV):
@@ -1104,7 +1109,7 @@ def call_method(it, recv, name, args, kwargs, node, fr):
         return dict_method(it, recv, name, args, kwargs, node, fr)
     if isinstance(recv, Method):
         # series.str.xxx(...)
-        it.record("call", f"method:{recv.name}.{name}", [recv.recv] + args, dict(kwargs), node)
+        it.record("call", f"method:{recv.name}.{name}", [recv.recv] + args, _kwcopy(kwargs), node)
         base = recv.recv
         kwn = sorted(kwargs)
         u = Val(call(f".{recv.name}.{name}" + (f"[{','.join(kwn)}]" if kwn else ""), to_term(base), *[to_term(a) for a in args],
@@ -1112,7 +1117,7 @@ def call_method(it, recv, name, args, kwargs, node, fr):
         u.method_chain = (recv.name, name, base, args)
         return u
     if isinstance(recv, Unk) and getattr(recv, "is_tree", False) and name in ("query", "query_ball_point", "query_radius"):
-        it.record("call", "method:" + name, [recv] + args, dict(kwargs), node)
+        it.record("call", "method:" + name, [recv] + args, _kwcopy(kwargs), node)
         qsp = getattr(args[0], "space", None) if args else None
         base_t = call("." + name, recv.term, *[to_term(a) for a in args], *[mk("kw", const(k), to_term(v)) for k, v in kwargs.items()])
         if name == "query":
@@ -1143,7 +1148,7 @@ def call_method(it, recv, name, args, kwargs, node, fr):
             u.colmask = (recv.of_frame, names)
             return u
     if isinstance(recv, Unk):
-        it.record("call", "method:" + name, [recv] + args, dict(kwargs), node)
+        it.record("call", "method:" + name, [recv] + args, _kwcopy(kwargs), node)
         if name in _STR_METHODS and recv.term.op == "call" and str(recv.term.args[0]).startswith(("str.", "builtins.str", "strformat")):
             # a method of a value that is itself the result of a string operation
             return Unk(call("str." + name, recv.term, *[to_term(a) for a in args]))
@@ -1175,7 +1180,7 @@ def call_method(it, recv, name, args, kwargs, node, fr):
         return Unk(call("." + name, to_term(recv)))
     from . import imgdom as _img
     if isinstance(recv, _img.Filtered) and name in ("astype", "copy", "view"):
-        it.record("call", "filtered." + name, [recv] + args, dict(kwargs), node)
+        it.record("call", "filtered." + name, [recv] + args, _kwcopy(kwargs), node)
         if name == "astype" and args and _runtime_dtype(args[0]):
             c_ = _img.Filtered(recv.src, recv.gain, recv.axes, recv.transformed, recv.real)
             c_.cast = to_term(args[0])  # converted to a type only known at run time (e.g. the input's): may truncate
@@ -1200,7 +1205,7 @@ def _flag(kwargs, key, default=False):
 
 
 def frame_method(it, f, name, args, kwargs, node, fr):
-    it.record("call", "DataFrame." + name, [f] + args, dict(kwargs), node)
+    it.record("call", "DataFrame." + name, [f] + args, _kwcopy(kwargs), node)
     if name == "copy":
         c = f.clone()
         c.copied_from = f
@@ -1492,7 +1497,7 @@ _STR_METHODS = {n for n in dir(str) if not n.startswith("_")} - {"count", "index
 
 
 def val_method(it, v, name, args, kwargs, node, fr):
-    it.record("call", "value." + name, [v] + args, dict(kwargs), node)
+    it.record("call", "value." + name, [v] + args, _kwcopy(kwargs), node)
     if getattr(v, "iter_kind", None) in ("groupby", "groupby-column") and getattr(v, "of_frame", None) is not None \
             and name in ("transform", "cumcount", "cumsum", "cummax", "cummin", "rank", "ngroup", "shift", "diff"):
         # one value per row of the grouped table, labelled like that table (whatever the function computes per group)
@@ -1589,7 +1594,10 @@ def val_method(it, v, name, args, kwargs, node, fr):
         return Val(T("clip", v.term, lo, hi), space=v.space, series=v.series)
     if name == "fillna":
         r = Val(v.term, space=v.space, series=v.series)
-        r.fillna = args[0] if args else None
+        r.fillna = args[0] if args else kwargs.get("value")
+        # inplace=True on a column taken out of a table (`df[c].fillna(0, inplace=True)`) fills that temporary only: under copy-on-write
+        # (pandas 3) the table is not touched, and the statement's value is None -- which is what discarding `r` amounts to
+        kwargs.get("inplace")
         return r
     if name == "isin":
         r = Val(call("isin", v.term, to_term(args[0])), space=v.space, series=True)
@@ -1684,7 +1692,7 @@ from . import lib as _lib  # noqa: E402
 
 
 def arr_method(it, a, name, args, kwargs, node, fr):
-    it.record("call", "ndarray." + name, [a] + args, dict(kwargs), node)
+    it.record("call", "ndarray." + name, [a] + args, _kwcopy(kwargs), node)
     if name in ("copy", "astype", "squeeze", "to_numpy", "view"):
         c = Arr(a.cols, a.ndim, a.space, a.single_row)
         c.__dict__.update({k: v for k, v in a.__dict__.items() if k not in ("cols",)})
@@ -1736,7 +1744,7 @@ def arr_method(it, a, name, args, kwargs, node, fr):
 
 
 def rot_method(it, r, name, args, kwargs, node):
-    it.record("call", "Rotation." + name, [r] + args, dict(kwargs), node)
+    it.record("call", "Rotation." + name, [r] + args, _kwcopy(kwargs), node)
     if name == "inv":
         return Rot(T("transpose", r.term), space=r.space)
     if name == "apply":
@@ -1840,7 +1848,7 @@ def seq_method(it, s, name, args, kwargs, node, fr):
     if name == "copy":
         return Seq(s.items, s.kind)
     if name == "sort":
-        it.record("call", "list.sort", [s], dict(kwargs), node)
+        it.record("call", "list.sort", [s], _kwcopy(kwargs), node)
         s.sorted = True
         s.sort_kwargs = kwargs
         return K(None)
